@@ -271,6 +271,11 @@ func (cs *Contracts) parseLines(lines []rawLine, trusted bool) error {
 				return errf("%s outside func", kw)
 			}
 			for _, p := range splitTop(rest) {
+				if p == "*" {
+					cur.Assigns = append(cur.Assigns, EIdent{"*"})
+					cur.AssignsSrc = append(cur.AssignsSrc, p)
+					continue
+				}
 				e, err := ParseExpr(p)
 				if err != nil {
 					return errf("%v", err)
